@@ -399,6 +399,11 @@ class C11(SigBase):
 
     # way (a) of the tie for the key of the interest tree: iv_wait_interest_compare and the two tests of __iv_wait_interest_find are
     # re-translated from the current source on every run (gen/c2gallina.py -> Gen/LeafWait.v); MT/WaitLink.v ties them to w_pid
+    def sibling_stages(self):
+        # anchors iv_signal.c (SIGCHLD interest, hand-off) and iv_avl.c: the C10 and C16 machinery
+        import c16
+        return [("C10", C10), ("C16", c16.C16)]
+
     def pre_proof(self, ctx):
         import leafgen
         return leafgen.regenerate(["LeafWait.v"])
@@ -631,6 +636,10 @@ class C19(SigBase):
     # way (a) of the tie for the escalation decision: `signum = (ch->num_kills++ < MAX_SIGTERM_COUNT) ? SIGTERM : SIGKILL`, the
     # `tv_sec += SIGNAL_INTERVAL` re-arm and the `num_kills = 0` of the close are re-translated from the current source on every
     # run (gen/c2gallina.py -> Gen/LeafPopen.v); Misc/PopenLink.v proves them equal to expected_sig / INTERVAL / 0 of the model
+    def sibling_stages(self):
+        # anchor iv_wait.c: the C11 machinery
+        return [("C11", C11)]
+
     def pre_proof(self, ctx):
         import leafgen
         return leafgen.regenerate(["LeafPopen.v"])
